@@ -643,6 +643,41 @@ pub fn run(ctx: &Ctx) {
             }
             Err(what) => acc.violation((1, i), format!("payload {:?} position {}: {}", p, i % 4, what), json!({"kind": "payload", "payload": p, "position": i % 4})),
         }
+        // sibling constructors of the same payload: CDATA content converted into text by
+        // BytesCData::escape / partial_escape / minimal_escape, written, read back, unescaped
+        if i % 4 == 2 && !p.contains("]]>") {
+            for level in 0..3u8 {
+                acc.evaluations += 1;
+                let r = guarded(|| -> Result<(), String> {
+                    let cd = BytesCData::new(p.as_str());
+                    let text = match level {
+                        0 => cd.escape(),
+                        1 => cd.partial_escape(),
+                        _ => cd.minimal_escape(),
+                    }
+                    .map_err(|e| format!("{:?}", e))?;
+                    let mut w = Writer::new(Vec::new());
+                    w.write_event(Event::Start(BytesStart::new("a"))).unwrap();
+                    w.write_event(Event::Text(text)).unwrap();
+                    w.write_event(Event::End(quick_xml::events::BytesEnd::new("a"))).unwrap();
+                    let bytes = w.into_inner();
+                    let got = read_back(&bytes)?;
+                    let mut want = vec![Canon::Start("a".into(), vec![])];
+                    if !p.is_empty() {
+                        want.push(Canon::Text(p.clone()));
+                    }
+                    want.push(Canon::End("a".into()));
+                    if got != want {
+                        return Err(format!("written {:?}, read back {:?}", lossy(&bytes), got));
+                    }
+                    Ok(())
+                });
+                match r {
+                    Ok(Ok(())) => {}
+                    Ok(Err(what)) | Err(what) => acc.violation((1, i), format!("CDATA content {:?} converted with {}: {}", p, ["escape()", "partial_escape()", "minimal_escape()"][level as usize], what), json!({"kind": "payload", "payload": p, "position": 2})),
+                }
+            }
+        }
     });
 
     let ops = ops();
